@@ -107,6 +107,7 @@ class WorkerComms:
         self._task_queues: List[mp.JoinableQueue] = []
         self._task_idx: Optional[int] = None
         self._worker_running_task: List[mp.Value] = []
+        self._replaced_worker_running_task: List[mp.Value] = []
         self._last_completed_task_worker_id = collections.deque()
         self._worker_working_on_job: Optional[mp.Array] = None
 
@@ -172,6 +173,7 @@ class WorkerComms:
         self._worker_running_task = [
             self.ctx.Value(ctypes.c_bool, False, lock=self.ctx.RLock()) for _ in range(self.n_jobs)
         ]
+        self._replaced_worker_running_task = []
         self._worker_working_on_job = self.ctx.Array('i', self.n_jobs, lock=True)
 
         # Results related
@@ -206,6 +208,9 @@ class WorkerComms:
         For some reason, recreating the worker running task value makes sure the worker doesn't get stuck when it's
         restarted in case of an unexpected death. For normal restarts, this is not necessary.
         """
+        # Keep the replaced object alive. Another worker that is being (re)started at this very moment with spawn or
+        # forkserver has received it by name and still has to rebuild it; it is unlinked once it's garbage collected
+        self._replaced_worker_running_task.append(self._worker_running_task[worker_id])
         self._worker_running_task[worker_id] = self.ctx.Value(ctypes.c_bool, False, lock=self.ctx.RLock())
 
     def reset_progress(self) -> None:
